@@ -6,8 +6,10 @@ import (
 	"bytes"
 	"fmt"
 	"go/token"
+	"go/types"
 	"os"
 	"os/exec"
+	"runtime/debug"
 	"sort"
 	"strings"
 
@@ -41,7 +43,7 @@ type Fault struct {
 	Arg  int    `json:"arg"`
 }
 
-var FaultKinds = []string{"discard_ref", "abort_stmt", "abort_init", "callex_err", "abort_header", "discard_reset"}
+var FaultKinds = []string{"discard_ref", "abort_stmt", "abort_init", "callex_err", "abort_header", "discard_reset", "vblock", "inline_closure"}
 
 // Env is per-process: export data located once with the real go command, corpus with
 // the results of the acceptance dry run.
@@ -50,6 +52,7 @@ type Env struct {
 	Corpus  map[string]*CorpusEntry
 	Paths   []string // admitted corpus packages
 	GoRoot  string
+	onC     func(*minicl.Compiler)
 }
 
 type CorpusEntry struct {
@@ -143,6 +146,7 @@ type Result struct {
 	LoadErr    error
 	Rejected   string // gogen panicked: the program (or this history of it) was rejected
 	Runtime    bool   // ... with a Go runtime error rather than a reported code error
+	Stack      string // stack of a runtime error (frames in gogen only)
 	FailUnit   string
 	FailInBody bool
 	Names      []string
@@ -162,6 +166,11 @@ type Result struct {
 
 // Build compiles p under front f. Every build has its own file set and importer.
 func (e *Env) Build(p *prog.Program, f *Front, hooks *minicl.Hooks) *Result {
+	return e.BuildWith(p, f, hooks, nil)
+}
+
+// BuildWith is Build with a callback that receives the compiler before it runs.
+func (e *Env) BuildWith(p *prog.Program, f *Front, hooks *minicl.Hooks, onC func(*minicl.Compiler)) *Result {
 	var ce *CorpusEntry
 	if p.Corpus != "" {
 		ce = e.Corpus[p.Corpus]
@@ -170,6 +179,8 @@ func (e *Env) Build(p *prog.Program, f *Front, hooks *minicl.Hooks) *Result {
 		}
 		p = ce.Prog
 	}
+	e.onC = onC
+	defer func() { e.onC = nil }()
 	return e.build(p, f, hooks, ce)
 }
 
@@ -202,6 +213,9 @@ func (e *Env) build(p *prog.Program, f *Front, hooks *minicl.Hooks, ce *CorpusEn
 	}
 	c := minicl.New(fset, files, tp, info, opts)
 	r.C = c
+	if e.onC != nil {
+		e.onC(c)
+	}
 	n := len(c.Syms())
 	r.Units = n
 	if n == 0 {
@@ -247,6 +261,7 @@ func (e *Env) build(p *prog.Program, f *Front, hooks *minicl.Hooks, ce *CorpusEn
 				r.Rejected = fmt.Sprint(rec)
 				if _, ok := rec.(interface{ RuntimeError() }); ok {
 					r.Runtime = true
+					r.Stack = trimStack(string(debug.Stack()))
 				}
 				if c.InBody() {
 					if u := c.CurUnit(); u != nil {
@@ -315,6 +330,7 @@ type injector struct {
 	p    *prog.Program
 	plan map[[2]int][]Fault
 	seen map[[2]int]bool
+	n    int
 }
 
 func (in *injector) inject(c *minicl.Compiler, unit, stmt, depth int) {
@@ -404,6 +420,29 @@ func (in *injector) fire(c *minicl.Compiler, ft Fault) {
 		} else {
 			c.B.ResetStmt()
 		}
+	case "vblock":
+		// not a fault: XGo-only constructs that Go source cannot express
+		c.B.VBlock()
+		c.B.Val(c.Pkg.Import("strconv").Ref("Itoa"))
+		c.B.Val(ft.Arg)
+		c.B.Call(1, false)
+		c.B.EndStmt()
+		c.B.End()
+	case "inline_closure":
+		tyInt := types.Typ[types.Int]
+		x := c.Pkg.NewParam(token.NoPos, "x", tyInt, false)
+		ret := c.Pkg.NewParam(token.NoPos, "", tyInt, false)
+		sig := types.NewSignatureType(nil, nil, nil, types.NewTuple(x), types.NewTuple(ret), false)
+		c.B.DefineVarStart(token.NoPos, fmt.Sprintf("zzInline%d", in.n))
+		in.n++
+		c.B.Val(ft.Arg)
+		c.B.InlineStart(sig, 1)
+		c.B.Val(x)
+		c.B.Val(1)
+		c.B.BinaryOp(token.ADD)
+		c.B.Return(1)
+		c.B.End()
+		c.B.EndInit(1)
 	case "abort_header":
 		// a switch whose tag fails to build; recovery is End() on the half-open construct
 		c.B.Switch()
@@ -427,4 +466,21 @@ func runOut(bin string, args ...string) (string, error) {
 	cmd.Stdout = &out
 	err := cmd.Run()
 	return out.String(), err
+}
+
+// trimStack keeps the frames that lie in gogen (function lines only).
+func trimStack(st string) string {
+	var out []string
+	for _, l := range strings.Split(st, "\n") {
+		if strings.HasPrefix(l, "github.com/goplus/gogen") {
+			if i := strings.LastIndex(l, "("); i > 0 {
+				l = l[:i]
+			}
+			out = append(out, l)
+			if len(out) >= 12 {
+				break
+			}
+		}
+	}
+	return strings.Join(out, " <- ")
 }
